@@ -267,26 +267,12 @@ func rulesC05(p *Prog, r *Report) {
 								r.Unknown("G3", "role store", p.pos(t.Pos()), "kind=undecided: a non-constant role is stored into a token")
 							}
 						}
-					case *ssa.BinOp:
-						if t.Op != token.EQL && t.Op != token.NEQ {
-							continue
-						}
-						for _, pair := range [][2]ssa.Value{{t.X, t.Y}, {t.Y, t.X}} {
-							ld, ok := pair[0].(*ssa.UnOp)
-							if !ok || ld.Op != token.MUL {
-								continue
-							}
-							fa, ok := ld.X.(*ssa.FieldAddr)
-							if !ok || fieldOf(fa).Struct != tokT.Type().String() || fieldOf(fa).Field != "role" {
-								continue
-							}
-							if c, ok := pair[1].(*ssa.Const); ok && c.Value != nil {
-								consumed[c.Value.ExactString()] = t.Pos()
-							}
-						}
 					}
 				}
 			}
+		}
+		for _, u := range roleUses(p) {
+			consumed[u.role] = u.in.Pos()
 		}
 		seen := map[string]bool{}
 		for k := range produced {
